@@ -285,15 +285,29 @@ fn gen_bits(rng: &mut Rng, w: u32) -> String {
     }
 }
 
+thread_local! {
+    /// narrow mode: mostly 1..4 bit values (many more rewrite rules apply there)
+    static NARROW: std::cell::Cell<bool> = const { std::cell::Cell::new(false) };
+}
+
+pub fn set_narrow_widths(on: bool) {
+    NARROW.with(|n| n.set(on));
+}
+
 fn pick_width(rng: &mut Rng) -> u32 {
-    *rng.pick(&[1u32, 1, 2, 3, 4, 8, 8, 16, 31, 32, 33, 63, 64, 65, 127, 128, 129, 200])
+    if NARROW.with(|n| n.get()) {
+        *rng.pick(&[1u32, 1, 1, 1, 2, 2, 3, 4, 4, 8, 33, 65])
+    } else {
+        *rng.pick(&[1u32, 1, 2, 3, 4, 8, 8, 16, 31, 32, 33, 63, 64, 65, 127, 128, 129, 200])
+    }
 }
 
 /// a statically typed client program
 pub fn gen_program(rng: &mut Rng, n: usize, burst: bool) -> Vec<Call> {
     let mut calls: Vec<Call> = vec![];
     let mut types: Vec<Option<Ty>> = vec![];
-    let names = ["a", "b", "c", "x", "y", "mem", "a b", "s@0", "_0"];
+    // incl. names that differ only in surrounding white space or case
+    let names = ["a", "b", "c", "x", "y", "mem", "a b", "s@0", "_0", " a", "a ", "mem\t", "A", "", "a\u{301}"];
     let find = |types: &Vec<Option<Ty>>, rng: &mut Rng, pred: &dyn Fn(&Ty) -> bool| -> Option<usize> {
         let c: Vec<usize> = types
             .iter()
